@@ -634,7 +634,7 @@ theorem decF_encF (d : Nat) : ∀ (fs : List Fmt) (tsh : List Nat) (ish : Option
 
 /-! ### extents: effective vs declared -/
 
-theorem ishNext_none (f : Fmt) : ishNext f none = none := by cases f <;> rfl
+theorem ishNext_none (f : Fmt) : ishNext f none = none := rfl
 
 theorem effShape_none : ∀ (fs : List Fmt) (tsh : List Nat), tsh.length = fs.length → effShape fs tsh none = tsh
   | [], tsh, h => by cases tsh with
@@ -657,29 +657,47 @@ def IshOK (ish : Option (List Nat)) (tsh : List Nat) : Prop :=
 theorem IshOK_next (f : Fmt) (ish : Option (List Nat)) (tsh : List Nat) (h : IshOK ish tsh) :
     IshOK (ishNext f ish) tsh.tail := by
   cases ish with
-  | none => rw [ishNext_none]; trivial
+  | none => trivial
   | some s =>
     have h' : shapeGe s tsh = true := h
-    cases f with
-    | B => trivial
-    | U =>
-      show shapeGe s.tail tsh.tail = true
-      cases s with
-      | nil => cases tsh with
-        | nil => rfl
-        | cons _ _ => simp [shapeGe] at h'
-      | cons a s => cases tsh with
-        | nil => simp [shapeGe] at h'
-        | cons b tsh => simp [shapeGe] at h'; exact h'.2
-    | C =>
-      show shapeGe s.tail tsh.tail = true
-      cases s with
-      | nil => cases tsh with
-        | nil => rfl
-        | cons _ _ => simp [shapeGe] at h'
-      | cons a s => cases tsh with
-        | nil => simp [shapeGe] at h'
-        | cons b tsh => simp [shapeGe] at h'; exact h'.2
+    show shapeGe s.tail tsh.tail = true
+    cases s with
+    | nil => cases tsh with
+      | nil => rfl
+      | cons _ _ => simp [shapeGe] at h'
+    | cons a s => cases tsh with
+      | nil => simp [shapeGe] at h'
+      | cons b tsh => simp [shapeGe] at h'; exact h'.2
+
+theorem cd_shapeGe_length : ∀ (s tsh : List Nat), shapeGe s tsh = true → s.length = tsh.length
+  | [], [], _ => rfl
+  | [], _ :: _, h => by simp [shapeGe] at h
+  | _ :: _, [], h => by simp [shapeGe] at h
+  | a :: s, b :: tsh, h => by
+    simp [shapeGe] at h
+    simp [cd_shapeGe_length s tsh h.2]
+
+/-- with an imposed shape of the right length every rank is laid out with the imposed extent -/
+theorem cd_effShape_some : ∀ (fs : List Fmt) (tsh s : List Nat), s.length = fs.length →
+    effShape fs tsh (some s) = s
+  | [], tsh, s, h => by cases s with
+    | nil => rfl
+    | cons _ _ => simp at h
+  | f :: fs, tsh, s, h => by
+    cases s with
+    | nil => simp at h
+    | cons x s =>
+      simp only [effShape, ishNext, Option.map_some, List.tail_cons, dimOf]
+      rw [cd_effShape_some fs tsh.tail s (by simpa using h)]
+
+/-- the extents the ranks are laid out with are the declared ones -/
+theorem cd_effShape_decl (fs : List Fmt) (tsh : List Nat) (ish : Option (List Nat))
+    (htsh : tsh.length = fs.length) (hish : IshOK ish tsh) : effShape fs tsh ish = declShape tsh ish := by
+  cases ish with
+  | none => exact effShape_none fs tsh htsh
+  | some s =>
+    have h' : shapeGe s tsh = true := hish
+    exact cd_effShape_some fs tsh s (by rw [cd_shapeGe_length s tsh h', htsh])
 
 theorem dimOf_ge (tsh : List Nat) (ish : Option (List Nat)) (h : IshOK ish tsh) : tsh.headD 0 ≤ dimOf tsh ish := by
   cases ish with
